@@ -218,6 +218,41 @@ func init() {
 					})
 				}
 			}
+			// the gate's decision does not depend on the other flags of the command: exit status and the presence of the
+			// output file under --quiet, --stub, the ignore flags and all of them, over a sub-grid and the malformed versions
+			{
+				nums := []int{0, 1, 2, 10}
+				var vs []string
+				for _, ma := range nums {
+					for _, mi := range nums {
+						vs = append(vs, fmt.Sprintf("%d.%d.0", ma, mi), fmt.Sprintf("%d.%d.7-rc.1", ma, mi))
+					}
+				}
+				vs = append(vs, "one.two", "1.2", "", "v1", "1.2.3.4")
+				for _, b := range []string{"0.2.0", "1.2.3", "2.10.0", "10.1.1-rc.1", "dev-main"} {
+					for _, v := range vs {
+						for fi, flags := range [][]string{{"--quiet"}, {"--stub"}, {"--ignore-missing-params", "--ignore-missing-services"}, {"--quiet", "--stub", "--ignore-missing-params", "--ignore-missing-services"}} {
+							b, v, fi, flags := b, v, fi, flags
+							w.Case(fmt.Sprintf("flags/B=%s/V=%s/%d", b, v, fi), func(c *C) {
+								cfg := c18cfg(&v, nil)
+								plain := w.BuildWithVersion(b, []File{{"c.yaml", cfg}})
+								flagged := w.BuildWithVersion(b, []File{{"c.yaml", cfg}}, flags...)
+								c.Distinct("all", c.ID)
+								c.Distinct("nontrivial", c.ID)
+								c.Count("evaluations_extra")
+								if flagged.Panic != "" {
+									c.Violation("panic:flags", "tool panicked: "+flagged.Panic, map[string]string{"c.yaml": cfg}, map[string]any{"build_version": b, "flags": flags})
+									return
+								}
+								if (plain.Exit == 0) != (flagged.Exit == 0) || plain.OutExists != flagged.OutExists {
+									c.Violation(fmt.Sprintf("version-verdict-depends-on-flags:%v", flags), fmt.Sprintf("build version %q, declared %q: exit %d / output written %v without flags, exit %d / output written %v with %v", b, v, plain.Exit, plain.OutExists, flagged.Exit, flagged.OutExists, flags),
+										map[string]string{"c.yaml": cfg}, map[string]any{"build_version": b, "flags": flags})
+								}
+							})
+						}
+					}
+				}
+			}
 			// numbers that do not fit a machine word are numbers all the same (semver sets no limit)
 			for _, bv := range []struct{ b, v, want string }{
 				{"1.2.3", "1.18446744073709551616.0", "reject-version"},
